@@ -100,14 +100,44 @@ def search_C08(tier, rng):
                              'observed': {'%s,%s' % (a, 'W-error' if b else 'default'): v for (a, b), v in res.items()},
                              'what': 'classification of %r via %s (%s) gave %s, expected %s' % (doc[:80], k[0], 'W-error' if k[1] else 'default', bad[k], exp),
                              'input_sha': _sha(doc), 'api': 'MosFile.from_string(doc) / from_file / bytes, warnings filter default|error'})
-    return {'evaluations': n, 'distinct': len(docs), 'failures': failures,
+    # two recognised message elements: the outcome must not depend on their order (which of the two wins is the library's fixed priority)
+    pre = '<mosID>a</mosID><ncsID>b</ncsID><messageID>7</messageID>'
+    tags = list(TABLE) + ['roElementAction']
+    pairs = list(itertools.combinations(tags, 2))
+    if tier == 'quick':
+        pairs = pairs[::3] + [('roCreate', 'roDelete'), ('roStorySend', 'roElementAction')]
+
+    def el(t):
+        if t == 'roElementAction':
+            return '<roElementAction operation="SWAP"><roID>R</roID><element_source><storyID>A</storyID><storyID>B</storyID></element_source></roElementAction>'
+        return '<%s><roID>R</roID></%s>' % (t, t)
+    for a, b in pairs:
+        d1 = '<mos>%s%s%s</mos>' % (pre, el(a), el(b))
+        d2 = '<mos>%s%s<x/>%s</mos>' % (pre, el(b), el(a))
+        for how in ('str', 'file'):
+            n += 2
+            r1, r2 = classify(d1, how, False), classify(d2, how, False)
+            allowed = {TABLE.get(a, 'EAStorySwap'), TABLE.get(b, 'EAStorySwap')}
+            what = None
+            if r1 != r2:
+                what = 'classification depends on sibling order: %s then %s gives %s, %s then %s gives %s' % (a, b, r1, b, a, r2)
+            elif r1 not in allowed:
+                what = 'document holding %s and %s classified as %s' % (a, b, r1)
+            if what and len(failures) < 12:
+                failures.append({'property': 'C08', 'fn': 'mosromgr.mostypes.MosFile._classify', 'doc': d1, 'doc2': d2, 'expected': 'same class for both orders',
+                                 'what': what, 'input_sha': _sha(d1), 'api': 'MosFile.from_string(doc) vs MosFile.from_string(doc2)'})
+                break
+    return {'evaluations': n, 'distinct': len(docs) + 2 * len(pairs), 'failures': failures,
             'rule': 'every message element x 4 payload shapes (incl. empty element) x 5 envelopes; roElementAction: 7 operations x 5 target x 6 source '
-                    'shapes; non-MOS and malformed documents; each via str, bytes and file under warning filters default and error',
+                    'shapes; non-MOS and malformed documents; each via str, bytes and file under warning filters default and error; pairs of two recognised '
+                    'message elements in both orders',
             'summary': {'short': '%d classifications of %d documents, %d failing' % (n, len(docs), len(failures)), 'bounded': True},
             'assumptions': []}
 
 
 def replay_C08(prop, f):
+    if 'doc2' in f:
+        return classify(f['doc'], 'str', False) != classify(f['doc2'], 'str', False)
     for how in ('str', 'bytes', 'file'):
         for werr in (False, True):
             if classify(f['doc'], how, werr) != f['expected']:
@@ -269,6 +299,11 @@ def c09_sequences(tier):
                 elif end == 'middle':
                     continue
                 yield spec + body
+    # every kind of message (roReadyToAir included: it carries nothing, but is still a message) after the roDelete
+    for k in kinds + ['readytoair']:
+        yield [('roCreate', 1), ('roDelete', 2), (k, 3)]
+        yield [('roCreate', 1), (k, 2), ('roDelete', 3), (k, 4), ('readytoair', 5)]
+        yield [('roCreate', 1), ('readytoair', 2), (k, 3)]
 
 
 def search_C09(tier, rng):
@@ -405,12 +440,25 @@ def search_C10(tier, rng):
                              'what': what, 'input_sha': _sha('s3order'), 'api': 'MosCollection.from_s3 over a fake bucket'})
     finally:
         s3mod.s3 = saved
-    # sorting MosFile objects
-    objs = [MosFile.from_string(d) for d in docs]
-    n += 1
-    if [o.message_id for o in sorted(reversed(objs))] != sorted(o.message_id for o in objs):
-        failures.append({'property': 'C10', 'fn': 'mosromgr.mostypes.MosFile.__lt__', 'what': 'sorted(MosFile objects) is not numeric message id order',
-                         'input_sha': 'sort', 'perm': [], 'how': 'sort'})
+    # sorting MosFile objects: every message kind (roCreate / roReplace included, not necessarily with the lowest id), pairwise and sorted()
+    for spec in (base, [('append', 3), ('roCreate', 7), ('roreplace', 20), ('delete', 12), ('readytoair', 100), ('roDelete', 9), ('move', 21)],
+                 [('roreplace', 50), ('append', 8), ('roCreate', 30), ('iteminsert', 200)]):
+        objs = [MosFile.from_string(d) for d in mk_msgs(spec)]
+        n += 1
+        what = None
+        if [o.message_id for o in sorted(reversed(objs))] != sorted(o.message_id for o in objs) \
+                or [o.message_id for o in sorted(objs)] != sorted(o.message_id for o in objs):
+            what = 'sorted(MosFile objects) is not numeric message id order: %s' % [(type(o).__name__, o.message_id) for o in sorted(objs)]
+        else:
+            for a in objs:
+                for b in objs:
+                    n += 1
+                    if (a < b) != (a.message_id < b.message_id) or (a > b) != (a.message_id > b.message_id):
+                        what = '%s(%d) < %s(%d) is %s' % (type(a).__name__, a.message_id, type(b).__name__, b.message_id, a < b)
+        if what:
+            failures.append({'property': 'C10', 'fn': 'mosromgr.mostypes.MosFile.__lt__', 'what': what,
+                             'input_sha': _sha('sort' + json.dumps(spec)), 'perm': [], 'how': 'sort', 'spec': spec,
+                             'api': 'sorted(MosFile.from_string(d) for d in docs)'})
     return {'evaluations': n, 'distinct': len(perms) * 2, 'failures': failures,
             'rule': 'permutations of a 6-message list with message ids 5, 9, 10, 99, 100, 1000 via from_strings and from_files',
             'summary': {'short': '%d permuted collections, %d failing' % (n, len(failures)), 'bounded': True}, 'assumptions': []}
@@ -476,8 +524,45 @@ def search_C07(tier, rng):
                     failures.append({'property': 'C07', 'fn': 'mosromgr.mostypes.RunningOrder.__add__', 'prefix': prefix, 'kind': k,
                                      'what': 'adding %s to a completed running order: %s, changed=%s' % (k, res, str(ro) != before),
                                      'input_sha': _sha(json.dumps(prefix) + k)})
+    # the collection reports the completion of its running order (not a summary of its readers): before the merge, after it, after a
+    # strict merge that stopped at a failing message, and for a collection built over an already completed running order
+    for spec in ([('roCreate', 1), ('append', 2), ('roDelete', 9)], [('roCreate', 1), ('bad', 2), ('roDelete', 9)], [('roCreate', 1), ('append', 2)],
+                 [('roCreate', 1), ('roDelete', 5), ('append', 7)]):
+        docs = mk_msgs(spec)
+        for strict in (True, False):
+            stages = []
+            with warnings.catch_warnings():
+                warnings.simplefilter('ignore')
+                mc = MosCollection.from_strings(docs, allow_incomplete=True)
+                stages.append(('before merge', mc))
+                try:
+                    mc.merge(strict=strict)
+                    stages.append(('after merge', mc))
+                except Exception:
+                    stages.append(('after the merge stopped at a failing message', mc))
+            for label, c in stages[-1:] + [('before merge', MosCollection.from_strings(docs, allow_incomplete=True))]:
+                n += 1
+                real = 'mosromgrmeta' in str(c.ro)
+                if c.completed != real or c.completed != c.ro.completed or str(c) != str(c.ro):
+                    failures.append({'property': 'C07', 'fn': 'mosromgr.moscollection.MosCollection.completed', 'prefix': spec, 'kind': label,
+                                     'what': 'collection %s (strict=%s) reports completed=%s, its running order %s a roDelete (%s)' % (
+                                         label, strict, c.completed, 'records' if real else 'does not record', spec),
+                                     'input_sha': _sha(json.dumps([spec, strict, label]))})
+    done = RunningOrder.from_string(ro_xml(['A'], mid=1))
+    done += MosFile.from_string(msg('RunningOrderEnd', mid=3)[0])
+    n += 1
+    try:
+        with warnings.catch_warnings():
+            warnings.simplefilter('ignore')
+            c = MosCollection.from_strings([str(done), msg('StoryAppend', mid=2, new=['N'])[0]], allow_incomplete=True)
+        if not c.completed:
+            failures.append({'property': 'C07', 'fn': 'mosromgr.moscollection.MosCollection.completed', 'prefix': [], 'kind': 'completed ro',
+                             'what': 'a collection over an already completed running order reports completed=False', 'input_sha': _sha('completed-ro')})
+    except X.MosRoMgrException:
+        pass
     return {'evaluations': n, 'distinct': n, 'failures': failures,
-            'rule': '5 merge prefixes x roDelete x every one of the 24 message types afterwards; round trip of the completed running order',
+            'rule': '5 merge prefixes x roDelete x every one of the 24 message types afterwards; round trip of the completed running order; '
+                    'MosCollection.completed against the document before / after / after an aborted merge',
             'summary': {'short': '%d completion checks, %d failing' % (n, len(failures)), 'bounded': True}, 'assumptions': []}
 
 
